@@ -13,6 +13,8 @@ def plan_C01(ctx):
     e1_int_coder(ctx)
     e1_chunking(ctx)
     run_family(ctx, "build_obs", n_of(ctx, 300, 6000), perfile=n_of(ctx, 20, 40))
+    run_family(ctx, "build_big", n_of(ctx, 14, 168), perfile=1)          # sizes and cardinalities on the chunking constants
+    run_family(ctx, "many_fields", n_of(ctx, 8, 120), perfile=2, seed_off=2)
     canary(ctx)
 
 
@@ -184,6 +186,7 @@ def e1_match_loop(ctx):
     tlc_mc(ctx, "MatchLoop", "MC_MatchLoop.cfg", workers=4)
     tlc_mc(ctx, "MatchLoop", "MC_MatchLoop_dev_NoNilCheck.cfg", workers=4, expect_violation="NoCrash")
     tlc_mc(ctx, "MatchLoop", "MC_MatchLoop_dev_RememberOnlyResolved.cfg", workers=4, expect_violation="ExactUnion")
+    tlc_mc(ctx, "MatchLoop", "MC_MatchLoop_dev_OverCountSkip.cfg", workers=4, expect_violation="ExactUnion")
 
 
 def plan_C05(ctx):
@@ -193,6 +196,7 @@ def plan_C05(ctx):
     run_family(ctx, "iter_walk", n_of(ctx, 300, 5000), perfile=50)
     run_family(ctx, "reuse_pairs", n_of(ctx, 324, 972), perfile=54, seed_off=3)
     run_family(ctx, "iter_big", n_of(ctx, 12, 150), perfile=n_of(ctx, 2, 5))
+    run_family(ctx, "build_big", n_of(ctx, 14, 168), perfile=1, seed_off=5)
     require_cov(ctx, "tag:onehit", "tag:multichunk", "tag:excluded", "tag:advance", "tag:replace", "onehit_iter")
     canary(ctx)
 
@@ -211,6 +215,8 @@ def plan_C02(ctx):
     e1_merge_algo(ctx)
     e1_chunking(ctx)
     run_family(ctx, "merge_obs", n_of(ctx, 250, 5000), perfile=n_of(ctx, 20, 40))
+    run_family(ctx, "twin_merge", n_of(ctx, 40, 800), perfile=10, seed_off=7)
+    run_family(ctx, "many_fields", n_of(ctx, 6, 100), perfile=2, seed_off=8)
     run_family(ctx, "stored_sweep", n_of(ctx, 40, 80), perfile=5, seed_off=1)      # merges read stored fields too
     run_family(ctx, "iter_big", n_of(ctx, 8, 100), perfile=2, seed_off=2)          # cardinality across 1024 by drops
     canary(ctx)
@@ -228,6 +234,7 @@ def plan_C04(ctx):
     e1_stored_codec(ctx)
     e1_writer_crc(ctx)
     run_family(ctx, "roundtrip", n_of(ctx, 150, 3000), perfile=n_of(ctx, 10, 30))
+    run_family(ctx, "roundtrip_big", n_of(ctx, 22, 110), perfile=2)
     run_family(ctx, "merge_obs", n_of(ctx, 120, 2500), perfile=20, seed_off=5)
     canary(ctx)
 
@@ -252,6 +259,7 @@ def plan_C07(ctx):
 def plan_C08(ctx):
     e1_reuse(ctx)
     run_family(ctx, "dict_ranges", n_of(ctx, 250, 5000), perfile=n_of(ctx, 20, 40))
+    run_family(ctx, "dict_interleave", n_of(ctx, 120, 2500), perfile=n_of(ctx, 20, 40))
     run_family(ctx, "merge_obs", n_of(ctx, 100, 1500), perfile=20, seed_off=6)
     canary(ctx)
 
@@ -300,6 +308,7 @@ def plan_C10(ctx):
     e1_chunking(ctx)
     run_family(ctx, "xver", n_of(ctx, 80, 1500), perfile=n_of(ctx, 8, 20))
     run_family(ctx, "xver_big", n_of(ctx, 14, 140), perfile=1)
+    run_family(ctx, "roundtrip_big", n_of(ctx, 22, 110), perfile=2, seed_off=6)
     canary(ctx)
 
 
@@ -322,6 +331,7 @@ def plan_C13(ctx):
     e2_gen_api(ctx, n_of(ctx, 60, 1200))
     run_family(ctx, "reuse", n_of(ctx, 200, 4000), perfile=n_of(ctx, 20, 40))
     run_family(ctx, "reuse_pairs", n_of(ctx, 324, 1944), perfile=54)     # the whole predecessor/successor matrix
+    run_family(ctx, "dict_interleave", n_of(ctx, 80, 1500), perfile=20, seed_off=4)
     run_family(ctx, "dv_walk", n_of(ctx, 8, 100), perfile=2, seed_off=9)
     canary(ctx)
 
@@ -348,6 +358,7 @@ def plan_C16(ctx):
     run_family(ctx, "merge_obs", n_of(ctx, 250, 5000), perfile=n_of(ctx, 20, 40), seed_off=10)
     run_family(ctx, "build_obs", n_of(ctx, 100, 2000), perfile=20, seed_off=11)
     run_family(ctx, "roundtrip", n_of(ctx, 60, 1000), perfile=10, seed_off=12)
+    run_family(ctx, "many_fields", n_of(ctx, 12, 200), perfile=2)
     canary(ctx)
 
 
@@ -356,6 +367,7 @@ def plan_C17(ctx):
     e1_algebra(ctx)
     e1_merge_algo(ctx)
     run_family(ctx, "assoc", n_of(ctx, 120, 2500), perfile=n_of(ctx, 10, 20))
+    run_family(ctx, "twin_merge", n_of(ctx, 60, 1200), perfile=10)
     canary(ctx)
 
 
@@ -369,6 +381,7 @@ def plan_C19(ctx):
     e1_fst_cache(ctx)
     e2_fst_cache(ctx, n_of(ctx, 40, 400))
     run_family(ctx, "fault_read", n_of(ctx, 150, 3000), perfile=n_of(ctx, 15, 40))
+    run_family(ctx, "fault_read_big", n_of(ctx, 8, 120), perfile=1)
     require_cov(ctx, "tag:fst_failed")
 
 
